@@ -242,7 +242,7 @@ def run_property(pid, tier, seed, update_lock=False, only=None, verbose=False):
     violations = []
     known_hits = []
     undecided = []
-    replay_dir = os.path.join(ROOT, "replays", pid)
+    replay_dir = os.path.join(os.environ.get("PYVC_REPLAY_DIR") or os.path.join(ROOT, "replays"), pid)
     for name, e in sorted(obl.items()):
         if e["verdict"] == "proved":
             continue
@@ -402,8 +402,9 @@ def run_property(pid, tier, seed, update_lock=False, only=None, verbose=False):
         ),
         assumptions=spec.get("assumptions", []) + ["A1: machine floats treated as mathematical reals", "engine semantics of the Python subset as listed in DESIGN.md 2.3"],
     )
-    os.makedirs(os.path.join(ROOT, "evidence"), exist_ok=True)
-    json.dump(ev, open(os.path.join(ROOT, "evidence", f"{pid}.json"), "w"), indent=1)
+    evdir = os.environ.get("PYVC_EVIDENCE_DIR") or os.path.join(ROOT, "evidence")  # seeded-change runs write elsewhere
+    os.makedirs(evdir, exist_ok=True)
+    json.dump(ev, open(os.path.join(evdir, f"{pid}.json"), "w"), indent=1)
 
     # ---- report
     print(f"[{pid}] {len(targets)} functions under contract, {n_obl} obligations ({total_instances} instances), {n_proved} proved, wall {wall:.1f}s")
